@@ -898,6 +898,11 @@ func (p *pendingReadIndex) add(sys pb.SystemCtx, reqs []*RequestState) {
 	p.mu.Lock()
 	defer p.mu.Unlock()
 	if p.stopped {
+		// close() ran after these requests had been taken out of the queue by
+		// the step worker, it could not see them
+		for _, req := range reqs {
+			req.terminated()
+		}
 		return
 	}
 	if _, ok := p.batches[sys]; ok {
